@@ -91,6 +91,9 @@ def gen_pool_plan(rng, tier, with_shutdown=True):
         # a replacement, a response or a timeout to complete in between
         p['focus_stall'] = [rng.choice(['borrow_connection', 'borrow_connection', 'return_connection', '_replace', 'shutdown', '_on_timeout', '_query']),
                             rng.choice([0.05, 0.15, 0.3]), rng.choice([0.01, 0.05, 0.2])]
+        if rng.random() < 0.3:
+            # one deep change point instead: the thread that reaches one given line of that function sits there for a long while
+            p['focus_stall'] = [p['focus_stall'][0], 1.0, rng.choice([0.05, 0.2, 0.5]), rng.randrange(1, 45), rng.choice([1, 2, 4])]
         if with_shutdown and p['shutdown']['at'] is not None and rng.random() < 0.5:
             p['shutdown_on_stall'] = True
     if rng.random() < 0.35:
